@@ -27,7 +27,7 @@ import (
 func init() {
 	tours["slots"] = []func(*core.Result, *core.RNG) (*sim, error){slotsTour}
 	tours["weeks"] = []func(*core.Result, *core.RNG) (*sim, error){weeksTour}
-	tours["restart"] = []func(*core.Result, *core.RNG) (*sim, error){restartTour}
+	tours["restart"] = []func(*core.Result, *core.RNG) (*sim, error){restartTour, restartFaultTour}
 	tours["equip"] = []func(*core.Result, *core.RNG) (*sim, error){equipTour, keyReuseTour}
 	tours["register"] = []func(*core.Result, *core.RNG) (*sim, error){registerTour, registerRaceTour}
 	tours["hostile"] = []func(*core.Result, *core.RNG) (*sim, error){hostileTour, shutdownTour}
@@ -264,10 +264,49 @@ func equipTour(res *core.Result, r *core.RNG) (*sim, error) {
 		s.res.Count("authorize.conflict-signed-zero")
 		s.authorize(ez2, "conflict-signed-zero")
 	}
+	// a conflicting authorization bans a device while the impact job is between its listing and that
+	// device's write: the ban must go through like any other, the job must survive it
+	hit := false
+	s.impactRound(func() {
+		if hit {
+			return
+		}
+		hit = true
+		if live := s.liveDevices(); len(live) > 1 {
+			d := live[len(live)-1]
+			ea := d.Auth
+			ea.Capacity += 3
+			ea.Signature = s.w.Sign(ea.SigningBytes(), s.a.GCA)
+			s.res.Count("authorize.conflict-during-impact-job")
+			s.authorize(ea, "conflict-field")
+		}
+	})
 	s.w.SnapHop()
 	s.restart(s.w.Now)
 	s.authorizeVariant("banned-id")
 	s.w.Sync(d0.ID, true)
+	return s, nil
+}
+
+// C04 with a storage fault: a registration whose key file cannot be written is refused and leaves no
+// trace in memory either (otherwise the running server honours a key that is gone after the restart,
+// and authorizations it accepted meanwhile make the next start fail); then the ordinary sequence
+func restartFaultTour(res *core.Result, r *core.RNG) (*sim, error) {
+	s, err := newSim(res, r, "restart-fault", 500, true)
+	if err != nil {
+		return nil, err
+	}
+	res.Count("restart.write-fault-tour")
+	s.registerWithWriteFault()
+	s.authorizeVariant("before-registration")
+	if !s.restart(s.w.Now) {
+		return s, nil
+	}
+	s.register("valid")
+	s.addDevice(1000)
+	s.registerWithWriteFault()
+	s.addDevice(1000)
+	s.restart(s.w.Now)
 	return s, nil
 }
 
@@ -579,7 +618,7 @@ func (s *sim) registerWithWriteFault() {
 	if viewJSON(before, true) != viewJSON(after, true) {
 		s.fail("a registration that failed to persist (I/O error on the key file) still took effect in memory: the server honours a key it will forget at restart", "c07-set-before-persist")
 	}
-	if _, err := os.Stat(filepath.Join(w.Dir, "gcaPubKey.dat")); err == nil {
+	if _, err := os.Stat(filepath.Join(w.Dir, "gcaPubKey.dat")); err == nil && !before.GCAAvailable {
 		s.fail("a failed registration left a key file behind", "c07-write-fault-file")
 	}
 }
